@@ -3,7 +3,7 @@
    0 < n <= len(buffer) and n = the length the header declares, dependence on the first n bytes only, rejection of
    proper prefixes, absence of undocumented exceptions. *)
 From Coq Require Import ZArith List Bool.
-From CP Require Import Core.Bytes Core.Result Frame.LVFrame Frame.Units Frame.Entry Frame.Ssl2 Lemmas.UnitLemmas Lemmas.UnitInstances Lemmas.Ssl2Lemmas.
+From CP Require Import Core.Bytes Core.Result Frame.LVFrame Frame.Units Frame.Entry Frame.Ssl2 Frame.SshPacket Ssh.Record Lemmas.UnitLemmas Lemmas.UnitInstances Lemmas.Ssl2Lemmas Lemmas.SshPacketLemmas.
 Open Scope Z_scope.
 
 Theorem C03_tls_record : frame_unit_ok parse_tls_record compose_tls_record always (lv_declared 5 tls_record_plen).
@@ -55,3 +55,19 @@ Theorem C03_ssl2_roundtrip : forall msg types t m b sfx,
   In t types -> 0 <= t < 256 -> msg t m = Ok (zlen m) -> ssl2_compose t m = Ok b ->
   ssl2_parse msg types (b ++ sfx) = Ok ((t, m, nil), zlen b).
 Proof. exact ssl2_roundtrip. Qed.
+
+(* SSH binary packets, for any payload parser that sees exactly the payload bytes *)
+Theorem C03_ssh_consumed_is_declared : forall msg buf x n,
+  ssh_parse msg buf = Ok (x, n) -> ssh_declared buf = Some n /\ 4 < n <= zlen buf.
+Proof. exact ssh_parse_declared. Qed.
+
+Theorem C03_ssh_self_delimiting : forall msg buf x n sfx,
+  ssh_parse msg buf = Ok (x, n) -> ssh_parse msg (firstn (Z.to_nat n) buf ++ sfx) = Ok (x, n).
+Proof. exact ssh_self_delimiting. Qed.
+
+(* what SshRecordBase.compose writes (padding rule of C07) parses back to the payload, whatever follows *)
+Theorem C03_ssh_roundtrip : forall msg payload sfx,
+  msg payload = Ok tt -> zlen payload < 4294967000 ->
+  ssh_parse msg (ssh_compose payload ++ sfx)
+  = Ok ((payload, repeat Byte.x00 (Z.to_nat (padding_length (zlen payload)))), zlen (ssh_compose payload)).
+Proof. exact ssh_roundtrip. Qed.
